@@ -37,6 +37,7 @@ def handle (line : String) : String :=
   | "linescan" :: rest => Drv.lineScanLine rest
   | "fullparse" :: rest => Drv.fullParseLine rest
   | "fullparser" :: rest => Drv.fullParseRLine rest
+  | "fullparset" :: rest => Drv.fullParseTLine rest
   | "fullrender" :: rest => Drv.fullRenderLine rest
   | "parseinline" :: rest => Drv.parseInlineLine rest
   | "unescape" :: rest => Drv.unescapeLine rest
